@@ -221,6 +221,22 @@ fn c02_profile(index: u64) -> Profile {
 fn c02_post(plan: &mut LPlan, seed: u64) {
     plan.fine = true;
     inject_ack_nak_noise(plan, seed, 2, 14);
+    {
+        // the client-facing socket fails now and then while ACKs and NAKs are being relayed to the
+        // SRT endpoint: what the uplinks' accounting does with them must not depend on that
+        use crate::lsim::plan::{Action, TimedAction};
+        let mut r = crate::prng::Rng::new(seed ^ 0xC11E);
+        if r.chance(0.35) {
+            let (lo, hi) = traffic_window(plan);
+            for _ in 0..r.range(2, 10) {
+                plan.actions.push(TimedAction {
+                    t: r.range(lo, hi.max(lo + 1)),
+                    kind: Action::ClientSockFault { kind: r.pick(&["err", "err", "wouldblock", "err_try"]).to_string(), count: r.range(1, 12) as u32 },
+                });
+            }
+            plan.actions.sort_by_key(|a| a.t);
+        }
+    }
 }
 
 /// Must-land traffic all along the stream: retransmissions and critical windows.
@@ -755,6 +771,8 @@ fn sel_l_profile(index: u64) -> Profile {
     p.horizon_lo_ms = 8_000;
     p.horizon_hi_ms = 20_000;
     p.max_bursts = 8;
+    // liveness timeouts below the guard's ceiling in a quarter of the runs
+    p.timeouts = index % 4 == 2;
     p
 }
 
@@ -805,6 +823,26 @@ fn sel_l_post(plan: &mut LPlan, seed: u64) {
             for (t, m) in [(t1, "classic"), (t2, "enhanced")] {
                 plan.actions.push(TimedAction { t, kind: Action::Control { line: format!(r#"{{"jsonrpc":"2.0","method":"set_mode","params":{{"mode":"{m}"}}}}"#) } });
             }
+            plan.actions.sort_by_key(|a| a.t);
+        }
+    }
+    {
+        // one run in five: a link is black-holed under load (pulled, then latched), a reload leaves
+        // it as the only link for a while, a second reload brings the others back
+        let mut r = crate::prng::Rng::new(seed ^ 0x51A6);
+        if plan.n_links >= 2 && r.chance(0.2) {
+            let (lo, hi) = traffic_window(plan);
+            let l = r.below(plan.n_links as u64) as usize;
+            let t1 = r.range(lo + 200, (lo + 3_000).min(hi.saturating_sub(4_000)).max(lo + 201));
+            plan.cfg.stall_guard = true;
+            plan.actions.retain(|a| !matches!(&a.kind, Action::Control { line } if line.contains("stall")));
+            plan.actions.push(TimedAction { t: t1, kind: Action::Blackhole { link: l, up: true, down: true, on: true } });
+            let t2 = t1 + r.range(1_500, 4_000);
+            plan.actions.push(TimedAction { t: t2, kind: Action::Reload { text: Some(format!("{}\n", crate::lsim::path_ip(l))) } });
+            let all: String = (0..plan.n_links).map(|k| format!("{}\n", crate::lsim::path_ip(k))).collect();
+            plan.actions.push(TimedAction { t: t2 + r.range(1_200, 2_500), kind: Action::Reload { text: Some(all) } });
+            plan.actions.push(TimedAction { t: t1.saturating_sub(100), kind: Action::Burst { n: 6_000, pps: *r.pick(&[400u32, 800]), size_lo: 100, size_hi: 1316, stride: 1 } });
+            plan.horizon_ms = plan.horizon_ms.max(t2 + 6_000);
             plan.actions.sort_by_key(|a| a.t);
         }
     }
@@ -907,6 +945,9 @@ fn c07_profile(index: u64) -> Profile {
     p.horizon_lo_ms = 9_000;
     p.horizon_hi_ms = 22_000;
     p.max_bursts = 2;
+    // liveness timeouts below the 5 s reconnect spacing: a flapped uplink can sit connected but
+    // timed out inside its back-off while the others re-register
+    p.timeouts = index % 3 == 2;
     p
 }
 
@@ -914,6 +955,19 @@ fn c07_post(plan: &mut LPlan, seed: u64) {
     use crate::lsim::plan::{Action, TimedAction, hex};
     plan.fine = true;
     let mut r = crate::prng::Rng::new(seed ^ 0x0707);
+    if plan.cfg.conn_timeout_ms < 4_000 && r.chance(0.6) {
+        // uplink A flaps (re-registers), then falls silent while connected; the receiver restarts
+        // inside A's back-off; the other uplinks time out, reconnect and are answered REG_NGP
+        let a = r.below(plan.n_links as u64) as usize;
+        let t0 = r.range(4_000, 6_000);
+        plan.actions.push(TimedAction { t: t0, kind: Action::Blackhole { link: a, up: true, down: true, on: true } });
+        plan.actions.push(TimedAction { t: t0 + plan.cfg.conn_timeout_ms + r.range(1_100, 2_200), kind: Action::Blackhole { link: a, up: true, down: true, on: false } });
+        let t1 = t0 + plan.cfg.conn_timeout_ms + r.range(2_500, 4_500);
+        plan.actions.push(TimedAction { t: t1, kind: Action::Blackhole { link: a, up: true, down: true, on: true } });
+        plan.actions.push(TimedAction { t: t1 + r.range(100, 1_500), kind: Action::ReceiverRestart });
+        plan.horizon_ms = plan.horizon_ms.max(t1 + 12_000);
+        plan.actions.sort_by_key(|a| a.t);
+    }
     if r.chance(0.6) {
         // adversarial receiver: a bounded-depth sequence of handshake packets
         // around the 1 s / 2 s / 4 s / 5 s deadlines (+-1 ms), on any link
